@@ -104,6 +104,7 @@ type SpecDB struct {
 	Order     []string // declaration order of ufun/define names
 	Files     []string
 	SortAlias map[string][2]string // name -> (Go type expression, package path)
+	SortDecls map[string][][2]string // every declaration of each alias (clash check after loading)
 	Ghosts    map[string][2]string // ghost variable -> (sort name, package path)
 	GhostVia  map[string]string    // ghost variable -> Go type whose holders may change it
 	Guards    []*Guard
@@ -118,7 +119,7 @@ type Guard struct {
 }
 
 func NewSpecDB() *SpecDB {
-	return &SpecDB{Contracts: map[string]*Contract{}, UFuns: map[string]*UFun{}, Defines: map[string]*Define{}, SortAlias: map[string][2]string{}, Ghosts: map[string][2]string{}, GhostVia: map[string]string{}}
+	return &SpecDB{Contracts: map[string]*Contract{}, UFuns: map[string]*UFun{}, Defines: map[string]*Define{}, SortAlias: map[string][2]string{}, SortDecls: map[string][][2]string{}, Ghosts: map[string][2]string{}, GhostVia: map[string]string{}}
 }
 
 var (
@@ -233,6 +234,7 @@ func (db *SpecDB) LoadContractFile(path, defaultPkg string) error {
 				return fail(l.n, "bad sort alias %q", rest)
 			}
 			db.SortAlias[strings.TrimSpace(kv[0])] = [2]string{strings.TrimSpace(kv[1]), pkg}
+			db.SortDecls[strings.TrimSpace(kv[0])] = append(db.SortDecls[strings.TrimSpace(kv[0])], [2]string{strings.TrimSpace(kv[1]), pkg})
 			cur = nil
 		case "func":
 			m := reFuncHdr.FindStringSubmatch(l.s)
@@ -367,6 +369,9 @@ func (db *SpecDB) LoadContractFile(path, defaultPkg string) error {
 				cur.PanicsIf = &cl
 			case "loop":
 				k, err := strconv.Atoi(strings.Fields(rest)[0])
+				if strings.Fields(rest)[0] == "*" {
+					k, err = 0, nil // "loop *": clauses that apply to every loop of the function
+				}
 				if err != nil {
 					return fail(l.n, "bad loop ordinal %q", rest)
 				}
